@@ -233,3 +233,25 @@ reg(PropertySpec(
                  "inside the clipping margin of a bounded map the transform is not a bijection (mass O(eps))"],
     miss=["network weights across save/load (bounded stand-in only)", "anything inside zuko / flowjax"],
 ))
+
+
+# Contracts that carry obligations tagged for a property are run by that property's check (audit: tools/audit_registry.py lists every
+# (property, contract) pair whose tagged obligations would otherwise not be counted by the property's own check)
+_EXTRA = {
+    "C02": ["samplers.importance:ImportanceSampler.sample", "samples:Samples.__getitem__"],
+    "C04": ["flows.jax.flows:FlowJax.sample_and_log_prob", "flows.torch.flows:ZukoFlow.sample_and_log_prob"],
+    "C05": ["samplers.mcmc:Emcee.sample", "samplers.mcmc:MiniPCN.sample"],
+    "C08": ["aspire:Aspire.sample_posterior"],
+    "C10": ["samplers.mcmc:Emcee.sample", "samplers.mcmc:MiniPCN.sample"],
+    "C11": ["samples:BaseSamples.from_samples"],
+    "C12": ["samplers.smc.base:SMCSampler.build_checkpoint_state"],
+    "C13": ["samples:BaseSamples.__setstate__", "transforms:CompositeTransform.__init__"],
+    "C15": ["flows.jax.flows:FlowJax.save", "flows.torch.flows:BaseTorchFlow.save", "samples:BaseSamples.from_dict", "samples:Samples.rejection_sample"],
+    "C17": ["aspire:Aspire.sample_posterior", "samplers.mcmc:Emcee.sample", "samplers.mcmc:MiniPCN.sample"],
+    "C18": ["samplers.smc.emcee:EmceeSMC.mutate", "samplers.smc.minipcn:MiniPCNSMC.mutate"],
+    "C20": ["flows.jax.flows:FlowJax.sample_and_log_prob", "samplers.importance:ImportanceSampler.sample"],
+}
+for _pid, _qs in _EXTRA.items():
+    for _q in _qs:
+        if _q not in REGISTRY[_pid].functions:
+            REGISTRY[_pid].functions.append(_q)
